@@ -41,6 +41,7 @@ Observed ==
 
 \* how many calls the step's operation stands for
 Calls == CASE St.op \in {"csend", "ssend"} -> Len(St.a.acc)
+           [] St.op = "csendcdisc" -> Len(St.a.acc) + 1
            [] St.op = "tick" -> 0
            [] OTHER -> 1
 
@@ -48,9 +49,13 @@ Call ==
     /\ InStep /\ b < Calls
     /\ CASE St.op = "connect" -> (COpenReq \/ CWsOpenReq)
          [] St.op = "csend"   -> CSend
+         \* sends, then disconnect(), issued back to back
+         [] St.op = "csendcdisc" -> IF b < Len(St.a.acc) THEN CSend
+                                    ELSE IF C.up /\ C.ph = "up" THEN CDisconnect
+                                    ELSE UNCHANGED vars
          [] St.op = "ssend"   -> SSend
          \* disconnect() of a side that is not connected does nothing
-         [] St.op = "cdisc"   -> IF C.up THEN CDisconnect ELSE UNCHANGED vars
+         [] St.op = "cdisc"   -> IF C.up /\ C.ph = "up" THEN CDisconnect ELSE UNCHANGED vars
          [] St.op = "sdisc"   -> IF S.up THEN SDisconnect ELSE UNCHANGED vars
          [] OTHER -> FALSE
     /\ Observed
